@@ -163,3 +163,70 @@ class UB:
         if k == 'icmp':
             return 1
         return BIG
+
+
+def eval_expr(e, env):
+    """value of a provenance tree under an assignment of its leaves: env maps ('phi', name) / ('load', key) /
+    ('param', name) to ints (64-bit two's complement arithmetic; comparisons yield 0/1)"""
+    M = (1 << 64) - 1
+
+    def sg(v, bits=64):
+        v &= (1 << bits) - 1
+        return v - (1 << bits) if v >> (bits - 1) else v
+    k = e[0]
+    if k == 'const':
+        return e[1] & M
+    if k == 'null':
+        return 0
+    if k == 'phi':
+        return env[('phi', e[1])] & M
+    if k == 'param':
+        return env[('param', e[2])] & M
+    if k == 'load':
+        from prov import addr_key
+        return env[('load', addr_key(e[1]))] & M
+    if k == 'ext':
+        v = eval_expr(e[3], env)
+        return v if e[1] == 'zext' else sg(v, 32) & M
+    if k == 'trunc':
+        return eval_expr(e[2], env) & ((1 << e[1]) - 1)
+    if k == 'cast':
+        return eval_expr(e[2], env)
+    if k == 'select':
+        return eval_expr(e[2], env) if eval_expr(e[1], env) & 1 else eval_expr(e[3], env)
+    if k == 'icmp':
+        a, b = eval_expr(e[2], env), eval_expr(e[3], env)
+        p = e[1]
+        return int({'eq': a == b, 'ne': a != b, 'ult': a < b, 'ule': a <= b, 'ugt': a > b, 'uge': a >= b,
+                    'slt': sg(a) < sg(b), 'sle': sg(a) <= sg(b), 'sgt': sg(a) > sg(b), 'sge': sg(a) >= sg(b)}[p])
+    if k == 'bin':
+        a, b = eval_expr(e[2], env), eval_expr(e[3], env)
+        op = e[1]
+        if op == 'add':
+            return (a + b) & M
+        if op == 'sub':
+            return (a - b) & M
+        if op == 'mul':
+            return (a * b) & M
+        if op == 'and':
+            return a & b
+        if op == 'or':
+            return a | b
+        if op == 'xor':
+            return a ^ b
+        if op == 'shl':
+            return (a << (b & 63)) & M
+        if op == 'lshr':
+            return a >> (b & 63)
+        if op == 'ashr':
+            return (sg(a) >> (b & 63)) & M
+        if op in ('sdiv', 'udiv'):
+            if b == 0:
+                raise KeyError('division by zero')
+            if op == 'udiv':
+                return a // b
+            q = abs(sg(a)) // abs(sg(b))
+            return (q if (sg(a) < 0) == (sg(b) < 0) else -q) & M
+        if op in ('urem',):
+            return a % b
+    raise KeyError('cannot evaluate %r' % (k,))
